@@ -357,11 +357,34 @@ pub fn run_sqrt(a: &Args, out: &mut Out) {
         fq2_sqrt_ev(out, Fq2::new(x, Fq::zero()));
         fq2_sqrt_ev(out, Fq2::new(-(x + x), Fq::zero()));
     }
+    // radicands of prescribed NORM a^2 + 2 b^2 (the first quantity the Fq2 square-root algorithm computes): every norm-one element
+    // is z / conj(z) = z^2 / N(z); multiplied by a small element w it has norm N(w) in {1, 2, 3, 4, 6, 9, 1/4, ...} - squares of Fq2
+    // whose roots have norm +1 or -1, and non-squares (N(w) = 2, 6: non-residues of Fq)
+    let unit = |z: Fq2| -> Option<Fq2> {
+        let n = (z.real() * z.real() + (z.imaginary() * z.imaginary() + z.imaginary() * z.imaginary())).inverse()?;
+        Some(z * z * Fq2::new(n, Fq::zero()))
+    };
+    let ws: Vec<Fq2> = {
+        let (o, z, t) = (Fq::one(), Fq::zero(), small(2));
+        let h = t.inverse().unwrap();
+        vec![Fq2::new(o, z), Fq2::new(-o, z), Fq2::new(z, o), Fq2::new(o, o), Fq2::new(t, z), Fq2::new(o, t), Fq2::new(t, o), Fq2::new(h, z), Fq2::new(z, h), Fq2::new(o, -o)]
+    };
+    for t in 1..=40u8 {
+        if let Some(zeta) = unit(Fq2::new(Fq::one(), small(t))) {
+            fq2_sqrt_ev(out, zeta);
+            fq2_sqrt_ev(out, -zeta);
+            fq2_sqrt_ev(out, zeta * ws[(t as usize) % ws.len()]);
+        }
+    }
     let mut k = 0u64;
     while !out.full() {
         k += 1;
         let r = if k % 2 == 0 { Fq::from_slice(&poolq.pick(&mut rng)).unwrap() } else { Fq::from_slice(&rand_bytes(&mut rng, 64)).unwrap() };
         let s = Fq::from_slice(&rand_bytes(&mut rng, 64)).unwrap();
+        if let Some(zeta) = unit(Fq2::new(r, s)) {
+            fq2_sqrt_ev(out, zeta);
+            fq2_sqrt_ev(out, zeta * ws[rng.gen_range(0..ws.len())]);
+        }
         // Fq: arbitrary element, a square, a square times the non-residue 2 ... (the specification decides by Euler)
         fq_sqrt_ev(out, r);
         fq_sqrt_ev(out, r * r);
